@@ -24,8 +24,9 @@ NoDiff(e) == Len(e.diff) = 0
 
 \* io.Writer contract as C10 states it: all bytes and their count, or an error (never silent partial);
 \* what is stored lies inside the window, contiguously from the current position.
+\* (a payload too long to ever fit is logged as its length "plen" only; its bytes follow the pattern the harness uses)
 WriteOK(e, h) ==
-  LET p == e.p
+  LET p == IF "plen" \in DOMAIN e THEN [i \in 1..e.plen |-> (i * 7 + 3) % 256] ELSE e.p
       real == Apply(ov, e.diff)
   IN IF h.kind = "err" THEN e.err = "ueof" /\ e.n = 0 /\ NoDiff(e)
      ELSE LET avail == h.end - (h.start + h.pos) IN
@@ -53,6 +54,8 @@ Ok(e) ==
     [] e.k = "ser"      -> NoDiff(e) /\ e.err = "nil" /\ e.bytes = Serialize(hdr)
     [] e.k = "open"     -> NoDiff(e) /\ ~e.panic
     [] e.k = "read"     -> ~e.panic /\ (e.h \in DOMAIN hs => ReadOK(e, hs[e.h]))
+    [] e.k = "hparse"   -> LET h == Parse(Slice(ov, seed, e.pos, HdrLen)) IN      \* a header parsed from any 80 bytes of the image
+                           NoDiff(e) /\ ~e.panic /\ e.err = "nil" /\ e.ver = h.ver /\ e.fields = h.f
     [] e.k = "write"    -> ~e.panic /\ (e.h \in DOMAIN hs => WriteOK(e, hs[e.h]))
     [] OTHER            -> TRUE     \* poke / setfield are harness actions
 
